@@ -17,6 +17,62 @@ ASSUMPTIONS = ['candidate strings are within the lengths the level tables cover 
                'for the levels small enough to enumerate (others through C10)']
 
 
+def whole_trainer(focus, i, pws, ngram, asize, maxlen, root, ops, exp, dist, viol, per_level, glevel, ks_def):
+    """the real run_trainer on a file of the list; what it saves about levels and probabilities against the model and the guesser"""
+    # the whole trainer (`run_trainer` of the snapshot, all three passes over a file of the list): what it saves as
+    # omen_pws_per_level.txt / pcfg_omen_prob.txt is compared, order and every bit of the doubles, with the model of the
+    # third pass and of the probability loop (the `levelsCount` / `omenProbFile` of the C18 theorems) over the tables above
+    if all(p_ and p_.strip('\r\n') == p_ and '\t' not in p_ for p_ in pws):
+        tf = os.path.join(common.scratch_dir('c18'), 'list.txt')
+        with open(tf, 'w', encoding='utf-8', newline='') as f:
+            f.write(''.join(p_ + '\n' for p_ in pws))
+            if i % 2 == 0:
+                # lines a correct reader skips (the $HEX[] payload decodes to text with a carriage return, a TAB, a line feed -
+                # pot-file artefacts of Windows-formatted lists): they change nothing
+                for tail_ in ('0d', '09', '0a', '0d0a'):
+                    f.write('$HEX[' + pws[0].encode('utf-8').hex() + tail_ + ']\n')
+                f.write('$HEX[0d' + pws[-1].encode('utf-8').hex() + ']\n')
+        rt = os.path.join(root, 'c18_full')
+        ok_, log_ = common.train(tf, rt, encoding='utf-8', ngram=ngram, coverage=0.6, alphabet_size=asize, max_len=maxlen)
+        dist['whole_trainings'] = dist.get('whole_trainings', 0) + 1
+        if not ok_:
+            viol.append({'property': focus, 'kind': 'training-failed', 'log_tail': log_[-300:],
+                         'witness': {'passwords': pws, 'ngram': ngram, 'alphabet_size': asize, 'max_length': maxlen}})
+        else:
+            def rd_pairs(name):
+                out_ = []
+                for ln in open(os.path.join(rt, 'Omen', name), encoding='utf-8'):
+                    a, b = ln.rstrip('\n').split('\t')
+                    out_.append((a, b))
+                return out_
+            ops.append('ot.third ' + ' '.join(enc(p_) for p_ in pws))
+            exp.append(' '.join(['c'] + [f"{a}:{b}" for a, b in rd_pairs('omen_pws_per_level.txt')]))
+            # the saved per-level counts describe what the guesser produces: for every level enumerated with the real generator, the
+            # count is the number of training passwords it emits there
+            for a, b in rd_pairs('omen_pws_per_level.txt'):
+                L = int(a)
+                if L >= 0 and L in per_level:
+                    emitted_here = sum(1 for p_ in pws if glevel.get(p_) == [L])
+                    if int(b) != emitted_here:
+                        viol.append({'property': focus, 'kind': 'saved-level-count-differs-from-guesser', 'level': L, 'saved': int(b), 'guesser': emitted_here,
+                                     'witness': {'passwords': pws, 'ngram': ngram, 'alphabet_size': asize, 'max_length': maxlen}})
+            ops.append(f"ot.probs {10 ** 10} 18")
+            saved_p = rd_pairs('pcfg_omen_prob.txt')
+            exp.append(' '.join(['p'] + [f"{a}:{common.f2h(float(b))}" for a, b in saved_p]))
+            # and judged directly: the saved probability of a listed level = (training passwords the guesser emits there / N) / emitted
+            for a, b in saved_p:
+                L = int(a)
+                if L in per_level and per_level[L] > 0:
+                    want = (sum(1 for p_ in pws if glevel.get(p_) == [L]) / len(pws)) / per_level[L]
+                    if float(b) != want:
+                        viol.append({'property': focus, 'kind': 'saved-probability', 'level': L, 'saved': float(b), 'want': want, 'via': 'run_trainer',
+                                     'witness': {'passwords': pws, 'ngram': ngram, 'alphabet_size': asize, 'max_length': maxlen}})
+            mass = sum(float(b) * dict(ks_def).get(int(a), 0) for a, b in saved_p) if ks_def is not None else 0.0
+            if mass > 1.0 + 1e-9:
+                viol.append({'property': focus, 'kind': 'markov-mass-above-one', 'mass': mass,
+                             'witness': {'passwords': pws, 'ngram': ngram, 'alphabet_size': asize, 'max_length': maxlen}})
+
+
 def run(ctx, focus='C11'):
     rng = ctx.rng
     viol, samples, disagreements = [], [], []
@@ -165,54 +221,14 @@ def run(ctx, focus='C11'):
                 if probs.get(L) != want:
                     viol.append({'property': 'C18', 'kind': 'saved-probability', 'level': L, 'saved': probs.get(L), 'want': want,
                                  'witness': {'passwords': pws, 'ngram': ngram, 'alphabet_size': asize, 'max_length': maxlen}})
-            # the whole trainer (`run_trainer` of the snapshot, all three passes over a file of the list): what it saves as
-            # omen_pws_per_level.txt / pcfg_omen_prob.txt is compared, order and every bit of the doubles, with the model of the
-            # third pass and of the probability loop (the `levelsCount` / `omenProbFile` of the C18 theorems) over the tables above
-            if all(p_ and p_.strip('\r\n') == p_ and '\t' not in p_ for p_ in pws):
-                tf = os.path.join(common.scratch_dir('c18'), 'list.txt')
-                with open(tf, 'w', encoding='utf-8', newline='') as f:
-                    f.write(''.join(p_ + '\n' for p_ in pws))
-                    if i % 2 == 0:
-                        # lines a correct reader skips (the $HEX[] payload decodes to text with a carriage return, a TAB, a line feed -
-                        # pot-file artefacts of Windows-formatted lists): they change nothing
-                        for tail_ in ('0d', '09', '0a', '0d0a'):
-                            f.write('$HEX[' + pws[0].encode('utf-8').hex() + tail_ + ']\n')
-                        f.write('$HEX[0d' + pws[-1].encode('utf-8').hex() + ']\n')
-                rt = os.path.join(root, 'c18_full')
-                ok_, log_ = common.train(tf, rt, encoding='utf-8', ngram=ngram, coverage=0.6, alphabet_size=asize, max_len=maxlen)
-                dist['whole_trainings'] = dist.get('whole_trainings', 0) + 1
-                if not ok_:
-                    viol.append({'property': 'C18', 'kind': 'training-failed', 'log_tail': log_[-300:],
-                                 'witness': {'passwords': pws, 'ngram': ngram, 'alphabet_size': asize, 'max_length': maxlen}})
-                else:
-                    def rd_pairs(name):
-                        out_ = []
-                        for ln in open(os.path.join(rt, 'Omen', name), encoding='utf-8'):
-                            a, b = ln.rstrip('\n').split('\t')
-                            out_.append((a, b))
-                        return out_
-                    ops.append('ot.third ' + ' '.join(enc(p_) for p_ in pws))
-                    exp.append(' '.join(['c'] + [f"{a}:{b}" for a, b in rd_pairs('omen_pws_per_level.txt')]))
-                    ops.append(f"ot.probs {10 ** 10} 18")
-                    saved_p = rd_pairs('pcfg_omen_prob.txt')
-                    exp.append(' '.join(['p'] + [f"{a}:{common.f2h(float(b))}" for a, b in saved_p]))
-                    # and judged directly: the saved probability of a listed level = (training passwords the guesser emits there / N) / emitted
-                    for a, b in saved_p:
-                        L = int(a)
-                        if L in per_level and per_level[L] > 0:
-                            want = (sum(1 for p_ in pws if glevel.get(p_) == [L]) / len(pws)) / per_level[L]
-                            if float(b) != want:
-                                viol.append({'property': 'C18', 'kind': 'saved-probability', 'level': L, 'saved': float(b), 'want': want, 'via': 'run_trainer',
-                                             'witness': {'passwords': pws, 'ngram': ngram, 'alphabet_size': asize, 'max_length': maxlen}})
-                    mass = sum(float(b) * dict(ks_def).get(int(a), 0) for a, b in saved_p)
-                    if mass > 1.0 + 1e-9:
-                        viol.append({'property': 'C18', 'kind': 'markov-mass-above-one', 'mass': mass,
-                                     'witness': {'passwords': pws, 'ngram': ngram, 'alphabet_size': asize, 'max_length': maxlen}})
+            whole_trainer('C18', i, pws, ngram, asize, maxlen, root, ops, exp, dist, viol, per_level, glevel, ks_def)
             if len(listed) >= 2 and any(per_level.get(L, 0) > 0 for L in listed):
                 nontrivial += 1
             if len(samples) < 3:
                 samples.append({'passwords': pws[:6], 'ngram': ngram, 'keyspace': sorted(listed.items())[:6], 'emitted': sorted(per_level.items())[:6]})
             continue
+        # C11: the per-level counts the whole trainer saves describe what the guesser produces (third pass over the file of the list)
+        whole_trainer('C11', i, pws, ngram, asize, maxlen, root, ops, exp, dist, viol, per_level, glevel, None)
         # C11: compare the three implementations (and the model) on candidate strings
         cands = ct.candidates(rng, pws, alphabet or 'a', ngram, maxlen)
         agree_nontrivial = 0
